@@ -28,9 +28,13 @@ class Locked:
 
 def regen(repo='/repo'):
     """Regenerate lean/SFModel/Gen from the current source. Returns list of translation errors."""
-    p = subprocess.run([sys.executable, os.path.join(VERIF, 'tools', 'py2lean.py'), '--repo', repo],
-                       capture_output=True, text=True)
-    return [l for l in p.stdout.splitlines() if 'TRANSLATION-ERROR' in l]
+    errs = []
+    for tool in ('py2lean.py', 'py2lean_dtype.py'):
+        path = os.path.join(VERIF, 'tools', tool)
+        if os.path.exists(path):
+            p = subprocess.run([sys.executable, path, '--repo', repo], capture_output=True, text=True)
+            errs += [l for l in p.stdout.splitlines() if 'TRANSLATION-ERROR' in l]
+    return errs
 
 
 def build(targets, timeout=3000):
